@@ -104,6 +104,17 @@ func maxHeight(hs map[string]int) int {
 	return m
 }
 
+// resolveTwiceVia: the first resolution, and a function that resolves again - through the SAME Resolver value for the
+// object API (a value that is used twice), through another call for the function API.
+func resolveTwiceVia(api int, db shared.DBNodeMap, n int) (error, func() error) {
+	if api == 0 {
+		_, err := resolver.Resolve(resolver.Config{MaxDepth: n}, db)
+		return err, func() error { _, e := resolver.Resolve(resolver.Config{MaxDepth: n}, db); return e }
+	}
+	r := resolver.NewResolver(db, resolver.Config{MaxDepth: n})
+	return r.Resolve(), r.Resolve
+}
+
 func resolveVia(api int, db shared.DBNodeMap, n int) error {
 	if api == 0 {
 		_, err := resolver.Resolve(resolver.Config{MaxDepth: n}, db)
